@@ -74,7 +74,11 @@ def _make_backend(step, seed_offset=0):
         for a in src.antennas:
             for s in a.streams:
                 s.add_noise(0, 1)
+                if step.get('noise2'):
+                    s.add_noise(0.05, 0.4)
         src.bg_x.add_noise(0, 0.5)
+        if step.get('noise2'):
+            src.bg_x.add_noise(0, 0.3)
         src.antennas[0].x.add_constant_signal(f_start=1e9 + 2.3e5, drift_rate=0, level=0.5)
         na = 2
     else:
@@ -82,6 +86,8 @@ def _make_backend(step, seed_offset=0):
                          seed=step['seed'] + seed_offset)
         for s in src.streams:
             s.add_noise(0, 1)
+            if step.get('noise2'):
+                s.add_noise(0.05, 0.4)
         src.x.add_constant_signal(f_start=1e9 + 2.3e5, drift_rate=0, level=0.5)
         na = 1
     bps = 2 * step['npol'] * step['nbits'] // 8
@@ -129,6 +135,9 @@ def run_scenario(steps, workdir, fresh_for_reused=False):
         elif kind == 'stream':
             s = DS.DataStream(sample_rate=1e6, fch1=1e9, ascending=step['ascending'], seed=step['seed'])
             s.add_noise(0.1, 1.3)
+            if step.get('noise2'):
+                s.add_noise(-0.2, 0.6)
+                s.add_noise(0.0, 0.2)
             s.add_constant_signal(f_start=1e9 + 1.1e5, drift_rate=3e6, level=0.7, phase=0.3)
             a = np.array(s.get_samples(step['n1']), copy=True)
             b = np.array(s.get_samples(step['n2']), copy=True)
@@ -140,6 +149,9 @@ def run_scenario(steps, workdir, fresh_for_reused=False):
                 a.y.add_noise(0, 2)
             arr.bg_x.add_noise(0, 0.5)
             arr.bg_y.add_noise(0, 0.25)
+            if step.get('noise2'):
+                arr.antennas[1].y.add_noise(0, 0.7)
+                arr.bg_y.add_noise(0, 0.35)
             a = np.array(arr.get_samples(step['n1'] + 5), copy=True)
             b = np.array(arr.get_samples(step['n2'] + 5), copy=True)
             out.append(_digest(a, b))
@@ -280,7 +292,8 @@ def rec_fields():
     return dict(seed=seed, ascending=st.booleans(), npol=st.integers(1, 2), nbits=st.sampled_from([8, 4]),
                 m=st.integers(1, 4), nblocks=st.integers(1, 4), bpf=st.integers(1, 3), nsb=st.integers(1, 5),
                 digitize=st.booleans(), template=st.booleans(), hdr=st.sampled_from(['default', 'fresh', 'reused']),
-                array=st.booleans(), period=st.sampled_from([1, 1, -1, 3]))
+                array=st.booleans(), period=st.sampled_from([1, 1, -1, 3]),
+                noise2=st.booleans())      # every stream carries a second noise source
 
 
 def step_strategy():
@@ -289,8 +302,9 @@ def step_strategy():
                                    obs_type=st.sampled_from(['chi2', 'gaussian']), share=st.booleans(),
                                    spread_type=st.sampled_from(['uniform', 'normal']),
                                    rfi_type=st.sampled_from(['stationary', 'random_walk']))),
-        st.fixed_dictionaries(dict(kind=st.just('stream'), seed=seed, ascending=st.booleans(), n1=st.integers(1, 300), n2=st.integers(1, 300))),
-        st.fixed_dictionaries(dict(kind=st.just('array'), seed=seed, n1=st.integers(1, 200), n2=st.integers(1, 200))),
+        st.fixed_dictionaries(dict(kind=st.just('stream'), seed=seed, ascending=st.booleans(), n1=st.integers(1, 300), n2=st.integers(1, 300),
+                                   noise2=st.booleans())),
+        st.fixed_dictionaries(dict(kind=st.just('array'), seed=seed, n1=st.integers(1, 200), n2=st.integers(1, 200), noise2=st.booleans())),
         st.fixed_dictionaries(dict(kind=st.just('stds'), seed=seed)),
         st.fixed_dictionaries(dict(kind=st.just('record'), **rec_fields())),
         st.fixed_dictionaries(dict(kind=st.just('record'), **rec_fields())),
@@ -539,6 +553,25 @@ def run_copy_case(case, ctx):
     if how == 'copy' and getattr(c, 'waterfall', None) is not None and getattr(fr, 'waterfall', None) is not None:
         if c.waterfall is fr.waterfall:
             obs.fail('copy_shares_waterfall', origin)
+        else:
+            # independence reaches into the attached Waterfall: its header, container and data are the copy's own
+            wo, wc = fr.waterfall, c.waterfall
+            h_o = wf_header(fr)
+            shared = [n for n in ('header', 'container', 'file_header') if getattr(wo, n, None) is not None and getattr(wo, n, None) is getattr(wc, n, None)]
+            co, cc = getattr(wo, 'container', None), getattr(wc, 'container', None)
+            if co is not None and cc is not None and getattr(co, 'header', None) is not None and getattr(co, 'header', None) is getattr(cc, 'header', None):
+                shared.append('container.header')
+            if shared:
+                obs.fail('copy_shares_waterfall_parts', f'{origin}: {shared}')
+            if getattr(wo, 'data', None) is not None and getattr(wc, 'data', None) is not None and np.shares_memory(np.asarray(wo.data), np.asarray(wc.data)):
+                obs.fail('copy_shares_waterfall_data', origin)
+            try:
+                wc.header['source_name'] = 'EDITED_IN_COPY'
+                wc.header['telescope_id'] = 63
+            except Exception:       # noqa: BLE001 - a header that cannot be edited cannot leak either
+                pass
+            if h_o is not None and wf_header(fr) != h_o:
+                obs.fail('copy_waterfall_edit_reached_original', f'{origin}: {hdr_diff(h_o, wf_header(fr))[:4]}')
     # seeds: different seeds give different noise, equal seeds equal noise
     obs.cls('seeds')
     from setigen.voltage import antenna as AN
